@@ -43,7 +43,7 @@ def floors(tier):
     return {"cls:feature_interaction_query": 300, "distinct_nontrivial": 200, "re:ForAll(@.*)?\\.enter": 1000, "cls:U>=2": 1000, "cls:cond:compound": 500,
             "cls:cond:or": 200, "cls:cond:and": 200, "cls:cond:not": 100, "cls:mentions:both": 300,
             "cls:mentions:universal_only": 30, "cls:mentions:free_only": 30, "cls:extra:first": 100,
-            "cls:extra:second": 100, "cls:u_expr": 100, "cls:u_restricted_entity": 300, "cls:free_variable_not_selected": 300, "cls:u_scalar_attribute_with_zero": 200, "cls:u_correlated_subquery": 300, "cls:u_flatten_of_plain_numbers": 200, "re:cls:universal_domain_of_40_to_60_values:.*": 240, "re:cls:condition_mentions_a_flattened_element:.*": 150, "cls:caching_off": 200, "cls:nfree=2": 200, "cls:nfree=3": 50}
+            "cls:extra:second": 100, "cls:u_expr": 100, "cls:u_restricted_entity": 300, "cls:free_variable_not_selected": 300, "cls:u_scalar_attribute_with_zero": 200, "cls:u_correlated_subquery": 300, "cls:u_flatten_of_plain_numbers": 200, "re:cls:universal_domain_of_40_to_60_values:.*": 240, "re:cls:condition_mentions_a_flattened_element:.*": 150, "cls:caching_off": 200, "cls:evaluated_after_an_evaluation_aborted_by_user_code": 100, "cls:nfree=2": 200, "cls:nfree=3": 50}
 
 
 def gen_corr_case(rng):
@@ -185,6 +185,10 @@ def gen_case(rng):
         if any(C.holds(restr, (o,)) for o in objs):      # non-empty universal domain (the statement's premise)
             case["u_restr"] = restr
             case["u_cond_on_entity"] = rng.random() < 0.6
+    if not case["u_expr"] and not case.get("u_attr") and not case.get("u_restr") and rng.random() < 0.3:
+        # HISTORY: before the judged evaluation the same query object is evaluated once with user code (a property of the
+        # universal value read by the condition) raising at its j-th access - at the 2nd or a later universal value, too
+        case["aborted_first"] = rng.randint(1, 7)
     return case
 
 
@@ -235,7 +239,7 @@ def expected(case, world):
     return out
 
 
-def run(case, world, caching, times=1, perm=None):
+def run(case, world, caching, times=1, perm=None, aborted_first=None):
     from entity_query_language import symbolic_mode, an, set_of, and_, for_all
     from entity_query_language.cache_data import enable_caching, disable_caching
     m = H.labels_of(world)
@@ -269,7 +273,11 @@ def run(case, world, caching, times=1, perm=None):
                 u = an(entity(xs[0], C.build(case["u_restr"], [xs[0]], 0, False)))
                 if case.get("u_cond_on_entity"):
                     cxs = [u] + list(xs[1:])      # the condition is written over the entity itself
-            cond_obj = C.build(case["cond"], cxs, 0, False)
+            cond_ast = case["cond"]
+            if aborted_first:
+                # (always true: the fault-injecting property returns `a`)
+                cond_ast = ["and", cond_ast, ["cmp", ">=", ["v", 0, [["a", "fa"]]], ["lit", 0]]]
+            cond_obj = C.build(cond_ast, cxs, 0, False)
             if case.get("cond_shared_with_earlier_query"):
                 from entity_query_language import or_
                 pre = an(set_of(xs, or_(cond_obj, C.build(case["extra"], xs, 0, False))))
@@ -283,11 +291,24 @@ def run(case, world, caching, times=1, perm=None):
             sel = [xs[i] for i in case["sel_free"]] if case.get("sel_free") else xs[1:]
             q = an(set_of(sel, cond))
         out = []
+        if aborted_first:
+            D.arm_fault(aborted_first)
+            try:
+                for r in q.evaluate():
+                    pass
+                ABORTED["not_reached"] += 1
+            except D.Boom:
+                ABORTED["raised"] += 1
+            finally:
+                D.arm_fault(None)
         for _ in range(times):
             out.append([tuple(H.lab(m, r[x]) for x in sel) for r in q.evaluate()])
         return out
     finally:
         enable_caching()
+
+
+ABORTED = {"raised": 0, "not_reached": 0}
 
 
 def run_for_c05(case, caching, times):
@@ -452,7 +473,10 @@ def check_case(case, ctx):
     if nU >= 2 and 0 < len(exp) < total:
         ctx.nontrivial()
     try:
-        got = run(case, world, case["caching"])[0]
+        before = ABORTED["raised"]
+        got = run(case, world, case["caching"], aborted_first=case.get("aborted_first"))[0]
+        if ABORTED["raised"] > before:
+            ctx.cls("cls:evaluated_after_an_evaluation_aborted_by_user_code")
     except Exception as e:
         ctx.fail("EXC", f"{type(e).__name__}: {e}")
         return
@@ -472,7 +496,7 @@ def classify(f, ctx):
         return None
     world = D.build_world(case["world"])
     exp = expected(case, world)
-    r = KF.attribute(f, lambda caching: run(case, world, caching)[0], exp, mentioned_not_selected=False,
+    r = KF.attribute(f, lambda caching: run(case, world, caching, aborted_first=case.get("aborted_first"))[0], exp, mentioned_not_selected=False,
                      compare=lambda got, e: H.diff_kind(got, e, ordered=False, multiset=not case.get("sel_free")),
                      nvars=0 if case.get("corr") else len(case["kinds"]))
     return r if r == "K05" else None
